@@ -4,6 +4,7 @@
    input   run <completed>,<per_user>,<incomplete>,<names>,<rules>,<replies>,<msgsize> <event> ...
            event  C<uid> | U<c> (authenticate) | H<c> | D<c> | R<c>,<hex>,<flags> | L<c>,<hex> | A<c>,<rule|x> | V<c>,<rule|x>
                   | K<c>,<d>,<serial>,<0|1>,<reply serial or 0> | Y<d>,<c>,<serial> | T<c>,<serial> | E<c>,<tag> | M<c>,<hex16>
+                  | G<7 limits, comma separated> (the configuration is reloaded with these limits)
                   | Q<hex> (probe: ListQueuedOwners) | N (probe: ListNames) | S (probe: the model's counters)
    output  one block per event, separated by " | "; a block is "<conn>><msg>,<conn>><msg>,..." or "-"  *)
 open Model_limits
@@ -51,6 +52,7 @@ let omsg_s = function
   | OReply (f, s) -> "ret:" ^ ns f ^ ":" ^ ns s
   | OSignal (f, t) -> "sig:" ^ ns f ^ ":" ^ ns t
   | OClosed -> "closed"
+  | OAbort -> "ABORT"
   | OFault -> "FAULT"
 let outs_s os = join "," (List.map (fun (c, m) -> ns c ^ ">" ^ omsg_s m) os)
 let who_s = function WBus -> "B" | WConn c -> "c" ^ ns c
@@ -58,25 +60,33 @@ let queued_s = function None -> "none" | Some l -> if l = [] then "empty" else S
 
 let rule_of s = if s = "x" then None else Some (ni s)
 
-type item = Ev of levent | ProbeQ of n list | ProbeN | ProbeS
+type item = It of citem | ProbeQ of n list | ProbeN | ProbeS
+
+let limits_of (lim : string) : limits =
+  match List.map ni (String.split_on_char ',' lim) with
+  | [a; b; c; d; e; f; g] -> { max_completed_connections = a; max_connections_per_user = b; max_incomplete_connections = c;
+                               max_names_per_connection = d; max_match_rules_per_connection = e; max_replies_per_connection = f;
+                               max_message_size = g }
+  | _ -> failwith "bad limits"
 
 let parse_item (t : string) : item =
   let body = String.sub t 1 (String.length t - 1) in
   let parts = String.split_on_char ',' body in
   match t.[0], parts with
-  | 'C', [u] -> Ev (Connect (ni u))
-  | 'U', [c] -> Ev (Auth (ni c))
-  | 'H', [c] -> Ev (Hello (ni c))
-  | 'D', [c] -> Ev (Disconnect (ni c))
-  | 'R', [c; h; f] -> Ev (RequestName (ni c, bytes_of_hex h, ni f))
-  | 'L', [c; h] -> Ev (ReleaseName (ni c, bytes_of_hex h))
-  | 'A', [c; r] -> Ev (AddMatch (ni c, rule_of r))
-  | 'V', [c; r] -> Ev (RemoveMatch (ni c, rule_of r))
-  | 'K', [c; d; s; nr; rs] -> Ev (Call (ni c, ni d, ni s, nr = "1", ni rs))
-  | 'Y', [d; c; s] -> Ev (Reply (ni d, ni c, ni s))
-  | 'T', [c; s] -> Ev (ReplyTimeout (ni c, ni s))
-  | 'E', [c; t] -> Ev (Emit (ni c, ni t))
-  | 'M', [c; h] -> Ev (Message (ni c, bytes_of_hex h))
+  | 'C', [u] -> It (Ev (Connect (ni u)))
+  | 'U', [c] -> It (Ev (Auth (ni c)))
+  | 'H', [c] -> It (Ev (Hello (ni c)))
+  | 'D', [c] -> It (Ev (Disconnect (ni c)))
+  | 'R', [c; h; f] -> It (Ev (RequestName (ni c, bytes_of_hex h, ni f)))
+  | 'L', [c; h] -> It (Ev (ReleaseName (ni c, bytes_of_hex h)))
+  | 'A', [c; r] -> It (Ev (AddMatch (ni c, rule_of r)))
+  | 'V', [c; r] -> It (Ev (RemoveMatch (ni c, rule_of r)))
+  | 'K', [c; d; s; nr; rs] -> It (Ev (Call (ni c, ni d, ni s, nr = "1", ni rs)))
+  | 'Y', [d; c; s] -> It (Ev (Reply (ni d, ni c, ni s)))
+  | 'T', [c; s] -> It (Ev (ReplyTimeout (ni c, ni s)))
+  | 'E', [c; t] -> It (Ev (Emit (ni c, ni t)))
+  | 'M', [c; h] -> It (Ev (Message (ni c, bytes_of_hex h)))
+  | 'G', _ -> It (Reload (limits_of body))
   | 'Q', [h] -> ProbeQ (bytes_of_hex h)
   | 'N', _ -> ProbeN
   | 'S', _ -> ProbeS
@@ -93,18 +103,13 @@ let counters (s : state) : string =
 let run_cmd (args : string list) : string =
   match args with
   | lim :: evs ->
-      let l = match List.map ni (String.split_on_char ',' lim) with
-        | [a; b; c; d; e; f; g] -> { max_completed_connections = a; max_connections_per_user = b; max_incomplete_connections = c;
-                                     max_names_per_connection = d; max_match_rules_per_connection = e; max_replies_per_connection = f;
-                                     max_message_size = g }
-        | _ -> failwith "bad limits" in
-      let st = ref linit in
+      let cs = ref (limits_of lim, linit) in
       let blocks = List.map (fun t ->
         match parse_item t with
-        | Ev e -> let (s', os) = lstep l !st e in st := s'; outs_s os
-        | ProbeQ name -> "q=" ^ queued_s (queued_owners l !st (QS name))
-        | ProbeN -> "n=" ^ join "+" (List.sort compare (List.map (function None -> "B" | Some k -> key_s k) (list_names (reg l !st))))
-        | ProbeS -> counters !st) evs in
+        | It i -> let (cs', os) = cstep !cs i in cs := cs'; outs_s os
+        | ProbeQ name -> "q=" ^ queued_s (queued_owners (fst !cs) (snd !cs) (QS name))
+        | ProbeN -> "n=" ^ join "+" (List.sort compare (List.map (function None -> "B" | Some k -> key_s k) (list_names (reg (fst !cs) (snd !cs)))))
+        | ProbeS -> counters (snd !cs)) evs in
       String.concat " | " blocks
   | _ -> failwith "usage"
 
